@@ -15,13 +15,15 @@ TOP = ["class Box:", "    def __init__(self, v):", "        self.v = v", "      
        "def picks(a):", "    if choice():", "        return a", "    k = \"z\"", "    return k", "",
        "def mkbox(a):", "    n = Box(a)", "    return n", "",
        "def getinner(q):", "    w = q.v", "    e = w.f", "    return e", "",
+       "def wrap(q):", "    h = ident(q)", "    return h", "",
+       "def fill(o, w):", "    j = setf(o, w)", "    return 0", "",
        "def lit2():", "    if choice():", "        return 1", "    return 2", "",
        "def via_alias(o, w):", "    q = o", "    if choice():", "        q.f = w", "    else:", "        q.f = 4", "    return 0", "",
        "def alias_exits(o, w):", "    q = o", "    if choice():", "        q.f = w", "        return o", "    q.f = 8", "    return o", "",
        "def plain_arms(o, w):", "    if choice():", "        o.f = w", "    else:", "        o.f = 6", "    return 0", ""]
 
 INT_ONLY = {"arith_add", "arith_sub_neg", "arith_mul", "arith_zero", "add_call", "two_sites_add", "sub3",
-            "callee_alias_two_arms", "callee_alias_two_exits", "callee_param_two_arms"}
+            "callee_alias_two_arms", "callee_alias_two_exits", "callee_param_two_arms", "branch_alias_field", "two_sites_wrap", "two_sites_wrap2", "two_sites_fill"}
 STR_ONLY = {"concat", "concat_left", "concat_digits", "repeat"}
 
 
@@ -63,6 +65,12 @@ def step(name, cur, nv, i, kind="int"):
         return ["o%d = Box(0)" % i, "r%d = alias_exits(o%d, %s)" % (i, i, cur), "%s = o%d.f" % (nv, i), "u%d = r%d.f" % (i, i)]
     if name == "callee_param_two_arms":
         return ["o%d = Box(0)" % i, "r%d = plain_arms(o%d, %s)" % (i, i, cur), "%s = o%d.f" % (nv, i)]
+    if name == "two_sites_wrap":
+        return ["u%d = wrap(11)" % i, "%s = wrap(%s)" % (nv, cur), "w%d = wrap(22)" % i]
+    if name == "two_sites_wrap2":
+        return ["u%d = wrap(11)" % i, "%s = wrap(%s)" % (nv, cur)]
+    if name == "two_sites_fill":
+        return ["a%d = Box(0)" % i, "b%d = Box(0)" % i, "r%d = fill(a%d, 5)" % (i, i), "s%d = fill(b%d, %s)" % (i, i, cur), "u%d = a%d.f" % (i, i), "%s = b%d.f" % (nv, i)]
     if name == "ctor_field":
         return ["o%d = Box(%s)" % (i, cur), "%s = o%d.v" % (nv, i)]
     if name == "field":
@@ -114,7 +122,7 @@ STEPS = ["copy", "arith_add", "arith_sub_neg", "arith_mul", "arith_zero", "conca
          "other_object", "alias_write", "alias_read", "list_elem", "list_write", "ident_call", "add_call", "two_sites_add", "two_sites_ident", "param_field",
          "param_read", "returned_object", "branch", "branch_one_arm", "branch_field", "branch_alias_field", "two_exits", "loop_once",
          "sub3", "concat_digits", "digits_concat", "repeat", "maybe_receiver", "nested_alias_param", "two_literal_exits",
-         "callee_alias_two_arms", "callee_alias_two_exits", "callee_param_two_arms"]
+         "callee_alias_two_arms", "callee_alias_two_exits", "callee_param_two_arms", "two_sites_wrap", "two_sites_fill", "two_sites_wrap2"]
 # two-step chains that are always run (shapes known to need both steps)
 CORE_TWO = [("branch", "sub3"), ("branch", "arith_zero"), ("branch", "arith_add"), ("branch", "concat"), ("two_exits", "arith_add"), ("branch", "field"),
             ("branch", "ident_call"), ("field", "branch"), ("arith_sub_neg", "arith_add"), ("arith_sub_neg", "arith_mul"), ("arith_sub_neg", "add_call"), ("alias_write", "param_read"), ("returned_object", "alias_write"), ("branch_one_arm", "add_call")]
@@ -125,9 +133,9 @@ class Chain:
     def __init__(self, kind, steps, start=None):
         self.kind, self.steps = kind, list(steps)
         self.start = start
-        self.name = "%s__%s" % (kind, "_".join(steps) or "none")
+        self.name = "%s__%s" % (kind, "-".join(steps) or "none")
         if start is not None:
-            self.name = "lit%d__%s" % (start[0], "_".join(steps) or "none")
+            self.name = "lit%d__%s" % (start[0], "-".join(steps) or "none")
 
     def ok(self):
         for s in self.steps:
